@@ -529,7 +529,10 @@ def run_idents(case, res):
         if r.startswith("!"):
             continue
         # typed value: class + bit patterns (vs encodes exactly that)
-        other, ospec = seen.setdefault((vs.split(":")[0], r), (vs, spec))
+        # value class (for numpy scalars: with the width — equal values of different dtypes legitimately share the
+        # value part of the name; that the name ignores the type is the separate `like`-type finding)
+        cls_key = ":".join(vs.split(":")[:2]) if vs.startswith("@np") else vs.split(":")[0]
+        other, ospec = seen.setdefault((cls_key, r), (vs, spec))
         if other != vs:
             a, b = other.split(":")[1:], vs.split(":")[1:]
             zero = all(x == y or {int(x), int(y)} <= {0, 1 << 15, 1 << 31, 1 << 63} for x, y in zip(a, b))
